@@ -37,8 +37,13 @@ def phase(c, tier, key, behaviours, opts):
     """key: 'text' (C05) or 'positions' (C02)"""
     q = tier == 'quick'
     # the machine the code implements refines the declarative rule (all token lists up to the bound)
-    cfg = tlc.cfg_text(constants={'MaxToks': 4 if q else 5}, invariants=['Refines', 'RefinesPos'])
+    cfg = tlc.cfg_text(constants={'MaxToks': 4 if q else 5, 'OldShift': False}, invariants=['Refines', 'RefinesPos'])
     c.tlc('LinesMachine.tla refines Lines.tla: all token lists of <= %d tokens over 12 token shapes' % (4 if q else 5), 'LinesMachine', cfg, timeout=1800)
+    if key == 'positions':
+        # the design before fix a1434e9 (a shortened token with fixed position is advanced): TLC shows the counterexample
+        r = c.tlc('LinesMachine.tla with OldShift: counterexample to RefinesPos expected', 'LinesMachine',
+                  tlc.cfg_text(constants={'MaxToks': 3, 'OldShift': True}, invariants=['RefinesPos']), allow_violation=True, timeout=600)
+        c.extra['old_shift_design_refuted_by_TLC'] = 'RefinesPos' in r.violated
     docs = behaviours[:]
     c.rng.shuffle(docs)
     docs = docs[:4000 if q else 40000]
